@@ -58,12 +58,15 @@ def sibling_for(src, cfg):
     """A sibling configuration: cfg with one compile-time option changed (chosen from the text's hash)."""
     data = src if isinstance(src, bytes) else src.encode('utf-8', 'surrogatepass')
     h = int.from_bytes(hashlib.blake2b(data, digest_size=4, person=b'sibling').digest(), 'big')
-    for k in range(len(SIBLINGS)):
-        s = SIBLINGS[(h + k) % len(SIBLINGS)]
-        (name, value), = s.items()
-        if cfg.get(name, None) != value and not (name == 'strict' and cfg.get('strict', True) is False):
-            return dict(cfg, **s)
-    return None
+    (name, value), = SIBLINGS[h % len(SIBLINGS)].items()
+    if name in cfg and (cfg[name] == value or h & 1024):
+        # the option is set for the template under test: the sibling leaves it at its default
+        sib = dict(cfg)
+        del sib[name]
+        return sib
+    if name == 'strict' and cfg.get('strict', True) is False:
+        return None
+    return dict(cfg, **{name: value})
 
 
 def make(cls, src, every=8, ctx=None, **cfg):
